@@ -1,6 +1,6 @@
 (* Property C14 — the compiler is faithful or refuses; it never silently changes the function. *)
 From Coq Require Import String ZArith List Bool Arith.
-From TLX Require Import Gen.Parse Model.ConvNet Model.Parse Proofs.C14Facts.
+From TLX Require Import Gen.Parse Model.ConvNet Model.Parse Proofs.C14Facts Model.Handle Proofs.HandleFacts.
 From TLX Require Import Model.Bits Model.CLang Model.Netlist Model.GenDense Proofs.CLangFacts Proofs.GenDenseFacts.
 Import ListNotations.
 
@@ -63,9 +63,29 @@ Example C14_example :
      = Some ([(LKConv, MConv 1 [4; 4] [2; 2] 1 0 2); (LKPool, MPool 2 1 0); (LKFlat, MFlatten); (LKLin, MDense 8 4)], [4]).
 Proof. repeat split; vm_compute; reflexivity. Qed.
 
+(* ---- one object, a container that changes between operations (Model/Handle.v) ---- *)
+(* the current source works on a copy when it translates and installs the tables of the new parse together with the new library *)
+Theorem C14_handle_tables : tables_discipline_src = TablesWithLibrary.
+Proof. reflexivity. Qed.
+(* EVERY sequence of {the container becomes model m (0 = one the compiler refuses), get_c_code(), compile(), call}: a call returns the
+   model of the last SUCCESSFUL compile - exporting the C text of a changed container or a refused compile changes nothing *)
+Theorem C14_handle_histories : forall m0 ops,
+  hrun tables_discipline_src (hinit m0) ops = hspec_run {| s_cur := m0; s_installed := None |} ops.
+Proof. exact handle_histories. Qed.
+(* with tables rewritten by every parse (the code between F54 and F67) the statement is false *)
+Theorem C14_tables_on_parse_refuted :
+  hrun TablesOnParse (hinit 1) [HCompile; HCall; HSet 2; HGetCode; HCall] = [HOk; HValue 1; HOk; HOk; HGarbage]
+  /\ hrun TablesOnParse (hinit 1) [HCompile; HSet 0; HCompile; HSet 1; HCall] = [HOk; HOk; HRefused; HOk; HGarbage]
+  /\ hspec_run {| s_cur := 1; s_installed := None |} [HCompile; HCall; HSet 2; HGetCode; HCall] = [HOk; HValue 1; HOk; HOk; HValue 1]
+  /\ hspec_run {| s_cur := 1; s_installed := None |} [HCompile; HSet 0; HCompile; HSet 1; HCall] = [HOk; HOk; HRefused; HOk; HValue 1].
+Proof. exact tables_on_parse_refuted. Qed.
+
 Eval compute in "PA:C14_dispatch"%string. Print Assumptions C14_dispatch.
 Eval compute in "PA:C14_parse_sound"%string. Print Assumptions C14_parse_sound.
 Eval compute in "PA:C14_rejects_foreign"%string. Print Assumptions C14_rejects_foreign.
 Eval compute in "PA:C14_structure"%string. Print Assumptions C14_structure.
 Eval compute in "PA:C14_groupsum_last"%string. Print Assumptions C14_groupsum_last.
 Eval compute in "PA:C14_faithful_dense"%string. Print Assumptions C14_faithful_dense.
+Eval compute in "PA:C14_handle_tables"%string. Print Assumptions C14_handle_tables.
+Eval compute in "PA:C14_handle_histories"%string. Print Assumptions C14_handle_histories.
+Eval compute in "PA:C14_tables_on_parse_refuted"%string. Print Assumptions C14_tables_on_parse_refuted.
